@@ -238,7 +238,18 @@ def _constants(case, V, st):
                     V('constants-roundtrip', 'str(Constants) -> get_constants changes %r (%r)' % (bad, kw))
             return
         base = json.load(open(os.path.join(env.REPO, 'testSetups', 'iota0.json')))
-        ref = _attrs(get_constants(os.path.join(env.REPO, 'testSetups', 'iota0.json')))
+        # every key that an expression refers to gets a NON-default value, otherwise a parser that falls back to the
+        # defaults too early cannot be told from a correct one
+        base.update({'R0': 100.0, 'vMax': 5.0, 'kTi': 0.3, 'deltaRTi': 1.25, 'CTi': 1.5, 'rMin': 0.5, 'rMax': 9.5})
+        p0 = os.path.join(d, 'ref.json')
+        with open(p0, 'w') as f:
+            json.dump({k: base[k] for k in sorted(base, key=lambda k: isinstance(base[k], str))}, f)    # numbers first, expressions last
+        ref = _attrs(get_constants(p0))
+        import math
+        expect = {'zMax': 100.0 * 2 * math.pi, 'vMin': -5.0, 'kTe': 0.3, 'deltaRTe': 1.25, 'deltaRN0': 2.5, 'deltaR': 4.0 * 2.5 / 1.25, 'CTe': 1.5, 'rp': 5.0}
+        for k, v in expect.items():
+            if not abs(ref[k] - v) <= 1e-12 * abs(v):
+                V('constants-expression-value', 'parameter file with numbers first: %s = %r, expected %r' % (k, ref[k], v))
         deps = ['zMax', 'vMin', 'kTe', 'deltaRTe', 'deltaRN0', 'deltaR', 'CTe', 'R0', 'vMax', 'kTi', 'deltaRTi', 'CTi']
         chain = ['deltaR', 'deltaRN0', 'deltaRTe', 'deltaRTi', 'CTe', 'CTi', 'zMax', 'R0'][:case['nkeys']]
         rest = [k for k in base if k not in chain]
